@@ -75,11 +75,12 @@ def import_closure(mod: str) -> list[str]:
 def prepare_lean(prop: str) -> dict:
     """Regenerate tables, build driver and this property's proof module, audit axioms.
     Returns a status dict; never raises for a failing build."""
-    st = {"tables": None, "driver_ok": False, "proofs_ok": False, "theorems": [], "axioms": {}, "bad_axioms": {},
+    st = {"tables": None, "tables_ok": False, "driver_ok": False, "proofs_ok": False, "theorems": [], "axioms": {}, "bad_axioms": {},
           "forbidden": [], "log": "", "examples": 0}
     with BuildLock():
         rc, out = sh(["/venv/bin/python", os.path.join(VERIF, "tools", "extract_tables.py")], cwd=VERIF)
         st["tables"] = out.strip().splitlines()[-1] if out.strip() else f"rc={rc}"
+        st["tables_ok"] = rc == 0
         if rc != 0:
             st["log"] += "\n[extract_tables]\n" + out[-3000:]
         rc, out = sh(["lake", "build", "tucan_driver"], cwd=LEAN)
@@ -285,6 +286,7 @@ def write_evidence(run: Run, level: str, extra_cov: dict, violations: int):
         "correspondence": {
             "ops": len(run.ops), "workload_digest": run.digest(), "agree": run.stats.get("corr_agree", 0),
             "agree_observable_only": run.stats.get("corr_agree_observable", 0),
+            "agree_both_reject_other_exception_class": run.stats.get("corr_agree_both_reject", 0),
             "disagree": run.stats.get("corr_disagree", 0), "notes": run.corr_notes[:10],
         },
         "distribution": {k: v for k, v in sorted(run.stats.items())},
